@@ -113,11 +113,12 @@ def reach(o, acc=None):
                     for n in lst:            # ... and so are the nodes its lag / variable look-ups list
                         acc[id(n)] = n
                         reach(getattr(n, 'meta', None), acc)
-        # every other mutable container the object holds under ANY attribute name -- instance attributes and class-level
-        # ones (a container bound on the class is shared by every graph, copy and derived graph): separation sets, indexes,
-        # memoised answers added later, cached derived graphs
+        # every other mutable container the object holds as an INSTANCE attribute under any name: separation sets, indexes,
+        # memoised answers added later, cached derived graphs.  (Containers bound on the class are not walked: a constant
+        # table there is legitimately common to all graphs; a class-level container that the API hands out -- shared
+        # separation sets -- is caught by the black-box half, which writes into `sepsets` of every derived graph.)
         seen_names = set()
-        for owner in [vars(o)] + [vars(k) for k in type(o).__mro__ if k is not object]:
+        for owner in [vars(o)]:
             for name, v in list(owner.items()):
                 if name.startswith('__') or name in seen_names:
                     continue
